@@ -163,7 +163,7 @@ def expected_items(items):
     """results of the persistent scenario target for the enqueued items, up to the first poison"""
     out = []
     for x in items:
-        if x == 'POISON':
+        if x in ('POISON', 'UNPICKLABLE'):
             break
         out.append(('r', x))
     return out
